@@ -3,12 +3,15 @@
 Deciding step: explicit-state BFS over histories of identified stores (identifiers added in the
 fixed non-monotone order 50, 10, 40, 20, 30, ...) with lookups before any sync, across append
 sessions and reopen, against a dict model; a second exploration on unidentified files where
-identified additions must be refused; exhaustive two/three-store merges followed by lookups.
+identified additions must be refused; exhaustive two/three-store merges (all id-assignment orders, file-name orders, numbered ranges)
+followed by lookups of every identifier in the merged store.
 """
 
 from __future__ import annotations
 
+from vf import runner
 from vf.engines import hist
+from vf.props import c09_merge as c09
 from vf.props.c07_store_index import coverage
 
 ID = 'C08'
@@ -26,6 +29,25 @@ BOUNDS = {
 }
 
 
+def _merged_case(case):
+    c09.worker_init('quick', 0)
+    r = c09.run_case(case)
+    for v in r['violations']:
+        v['case'] = case
+    return r
+
+
+def merged_lookups(tier):
+    """Lookup in merged stores: every identified merge of the C09 concatenation and unpadded-pattern
+    sub-lattices with <=3 input stores (all id-assignment orders, name orders, range starts)."""
+    cases = []
+    for sl in c09.sublattices(tier, 0):
+        if sl['name'] in ('concatenation', 'unpadded-pattern'):
+            cases += [c for c in sl['cases'] if c['scheme'] != 'none' and (len(c['sizes']) in (2, 3) or sl['name'] == 'unpadded-pattern') and max(c['sizes']) <= 2]
+    res = runner.pool_map(_merged_case, cases, runner.NPROC, None, ())
+    return len(cases), [v for r in res for v in r['violations']]
+
+
 def run(tier, seed):
     alpha, maxt, depth, ualpha, udepth2, nalpha, ndepth = BOUNDS[tier]
     a = hist.explore(DRIVER, (alpha, True, maxt), depth, dedup=True, seed=seed, label='identified')
@@ -36,8 +58,13 @@ def run(tier, seed):
     cov['transitions'] += u['transitions']
     cov['traces_validated_against_impl'] += u['traces']
     cov['unidentified_file_states'] = u['states']
-    return cov, a['violations'] + u['violations'] + b['violations']
+    nm, vm = merged_lookups(tier)
+    cov['merged_store_lookup_cases'] = nm
+    cov['traces_validated_against_impl'] += nm
+    return cov, a['violations'] + u['violations'] + b['violations'] + vm
 
 
 def replay(case):
+    if 'history' not in case:
+        return _merged_case(case)['violations']
     return hist.replay(DRIVER, case)
